@@ -415,6 +415,11 @@ func vfC05RunClientWS(cs *vfC05Case) vfC05Result {
 				k := 1 + r.Intn(3)
 				s := ""
 				for j := 0; j < k && i < len(all); j++ {
+					// the transport refuses websocket messages above its read limit (32 KiB, a documented constant of
+					// the library): grouping must not manufacture one out of stanzas that are each within it
+					if j > 0 && len(s)+len(all[i].XML) > 32000 {
+						break
+					}
 					s += all[i].XML
 					i++
 				}
